@@ -374,7 +374,13 @@ func (t *Total) Calculate(cur currency.Code, rr cbc.Key) {
 	if t == nil {
 		return
 	}
-	zero := cur.Def().Zero()
+	def := cur.Def()
+	if def == nil {
+		// unknown currency: nothing can be calculated; validation of the
+		// currency code itself reports the problem
+		return
+	}
+	zero := def.Zero()
 	t.calculateFinalSum(zero, rr)
 	t.round(zero)
 }
